@@ -1,4 +1,5 @@
 import Eliot.Proofs.SysFan
+import Eliot.Proofs.SysVars
 import Eliot.Properties.C04
 /-!
 # The emission lemma for the structured fragment of the core language (C01, also C03/C17)
@@ -7,7 +8,9 @@ import Eliot.Properties.C04
 
 * the **structured fragment** (`Stmt.structured` / `Block.structured`): `with start_action/start_task`,
   `log`, `raise`, `try/except` (handler may call `write_traceback`), `add_success_fields` on the
-  current action, `probe`;
+  current action, `probe`, and the explicit spelling of an action (`Block.structuredX`):
+  `x = start_action(..)`, context segments `with x.context():` / `x.run(..)`, `x.finish(..)`, adjacent
+  in one block;
 * the **denotation** `denS`/`denB`: "what the program performed" as a forest (`T`/`F`) of actions and
   messages carrying what was logged (`MSpec`/`Spec`, success fields, outcome), defined without the
   machine: no action table, no context variable, no levels, no destinations — only the three
@@ -15,7 +18,8 @@ import Eliot.Properties.C04
 * the **expected dicts** `T.dicts`/`F.dicts`: the dicts such a forest puts on the wire when it is the
   content of action `(u, lvl)` from position `k` on, in depth-first emission order (a task started
   inside an action is emitted in place but takes no position);
-* the **emission lemma** `execB_emits` (inside an action) / `execB_top` (outside any action): the
+* the **emission lemma** `execB_emits` (inside an action) / `execB_top` (outside any action), with
+  `execX_emits` / `execX_top` for the rest of a block while an explicitly spelled action is open: the
   model of the real code stages exactly those dicts.
 -/
 namespace Sys.Emit
@@ -198,6 +202,21 @@ def withR (env : Env) (sepr : Bool) (sp : Spec) (d : DS) (s : Fields) (r : R) : 
     wf := presentOpt (sp.sers.map (·.1)) sp.fields && r.wf &&
       (match r.out with | .ok => presentOpt (sp.sers.map (·.2)) r.s | _ => true) }
 
+/-- the result of `x.finish(exc)` closing the explicitly spelled action `x = start_action(sp)` that was
+started at counters `d0` and has since performed `kids` and collected success fields `sx`: the same
+node as the `with` block — but `finish` does not raise, the outcome is `ok` -/
+def closeR (env : Env) (sepr : Bool) (sp : Spec) (d0 : DS) (s : Fields) (kids : F) (sx : Fields) (res : Outcome) (d : DS) : R :=
+  { f := if sepr then .sep d0.nu (T.node sp d0.tick d.tick sx res (extOut env res d.ex).1 kids) .nil
+         else .own (T.node sp d0.tick d.tick sx res (extOut env res d.ex).1 kids) .nil,
+    out := .ok, s := s,
+    ds := { tick := d.tick + 1, nu := d.nu, ex := (extOut env res d.ex).2 },
+    wf := match res with | .ok => presentOpt (sp.sers.map (·.2)) sx | _ => true }
+
+/-- what `x.finish(exc)` is told -/
+def finRes : Option Nat → Outcome
+  | none => .ok
+  | some e => .raised (.user e)
+
 /-- `write_traceback()` for `e` from counters `d`: the extractor is consulted, then one message -/
 def tbR (env : Env) (sepr : Bool) (d : DS) (s : Fields) (e : Exc) : R :=
   leafR sepr { d with ex := (extOf env e d.ex).2 } s (tbSpec env e (extOf env e d.ex).1)
@@ -227,12 +246,54 @@ def denS (env : Env) (cur : Option Exc) (inAct : Bool) : Stmt → DS → Fields 
 def denB (env : Env) (cur : Option Exc) (inAct : Bool) : Block → DS → Fields → R
   | .nil, d, s => { f := .nil, out := .ok, s := s, ds := d, wf := true }
   | .cons st rest, d, s =>
-    let r := denS env cur inAct st d s
-    match r.out with
-    | .ok =>
-      let r2 := denB env cur inAct rest r.ds r.s
-      { f := r.f.append r2.f, out := r2.out, s := r2.s, ds := r2.ds, wf := r.wf && r2.wf }
-    | _ => r
+    match st with
+    | .startAs x task sp =>
+      -- the explicit spelling of an action: `x = start_action(..)`, then (`denX`) its content, then `x.finish(..)`
+      let r := denX env cur inAct x (task || !inAct) sp d s rest .nil []
+        { tick := d.tick + 1, nu := if (task || !inAct) = true then d.nu + 1 else d.nu, ex := d.ex }
+      { r with wf := presentOpt (sp.sers.map (·.1)) sp.fields && r.wf }
+    | st =>
+      let r := denS env cur inAct st d s
+      match r.out with
+      | .ok =>
+        let r2 := denB env cur inAct rest r.ds r.s
+        { f := r.f.append r2.f, out := r2.out, s := r2.s, ds := r2.ds, wf := r.wf && r2.wf }
+      | _ => r
+/-- the rest of a block after `x = start_action(sp)` (started at counters `d0`, a tree of its own iff
+`sepr`; `s` = the success fields of the enclosing action), while `x` is open: it has performed `kids`
+and collected success fields `sx`, the counters are `d`.  Allowed: `with x.context(): body` /
+`x.run(lambda: body)` whose body ends normally (a body that raises would leave the action unfinished:
+excluded, `wf = false`), then `x.finish(exc)`, which closes the node, and the block goes on. -/
+def denX (env : Env) (cur : Option Exc) (inAct : Bool) (x : Nat) (sepr : Bool) (sp : Spec) (d0 : DS) (s : Fields) :
+    Block → F → Fields → DS → R
+  | .nil, _, _, _ => { f := .nil, out := .stuck, s := s, ds := d0, wf := false }
+  | .cons st rest, kids, sx, d =>
+    match st with
+    | .inContext y body =>
+      if y = x then
+        let rb := denB env cur true body d sx
+        match rb.out with
+        | .ok =>
+          let r := denX env cur inAct x sepr sp d0 s rest (kids.append rb.f) rb.s rb.ds
+          { r with wf := rb.wf && r.wf }
+        | _ => { f := .nil, out := .stuck, s := s, ds := d0, wf := false }
+      else { f := .nil, out := .stuck, s := s, ds := d0, wf := false }
+    | .runIn y body =>
+      if y = x then
+        let rb := denB env cur true body d sx
+        match rb.out with
+        | .ok =>
+          let r := denX env cur inAct x sepr sp d0 s rest (kids.append rb.f) rb.s rb.ds
+          { r with wf := rb.wf && r.wf }
+        | _ => { f := .nil, out := .stuck, s := s, ds := d0, wf := false }
+      else { f := .nil, out := .stuck, s := s, ds := d0, wf := false }
+    | .finish y exc =>
+      if y = x then
+        let r := closeR env sepr sp d0 s kids sx (finRes exc) d
+        let r2 := denB env cur inAct rest r.ds r.s
+        { f := r.f.append r2.f, out := r2.out, s := r2.s, ds := r2.ds, wf := r.wf && r2.wf }
+      else { f := .nil, out := .stuck, s := s, ds := d0, wf := false }
+    | _ => { f := .nil, out := .stuck, s := s, ds := d0, wf := false }
 end
 
 end Sys.Emit
@@ -253,7 +314,20 @@ def Stmt.structured (inH inAct : Bool) : Stmt → Bool
   | _ => false
 def Block.structured (inH inAct : Bool) : Block → Bool
   | .nil => true
-  | .cons s r => s.structured inH inAct && r.structured inH inAct
+  | .cons s r =>
+    match s with
+    | .startAs x _ _ => r.structuredX inH inAct x
+    | s => s.structured inH inAct && r.structured inH inAct
+/-- the rest of a block after `x = start_action(..)`: context segments for `x` whose bodies are
+structured and do not rebind `x`, then `x.finish(..)`, then a structured rest -/
+def Block.structuredX (inH inAct : Bool) (x : Nat) : Block → Bool
+  | .nil => false
+  | .cons s r =>
+    match s with
+    | .inContext y body => y == x && body.structured inH true && !body.binds x && r.structuredX inH inAct x
+    | .runIn y body => y == x && body.structured inH true && !body.binds x && r.structuredX inH inAct x
+    | .finish y _ => y == x && r.structured inH inAct
+    | _ => false
 end
 end Sys
 
@@ -768,7 +842,8 @@ theorem denS_try (env : Env) (cur : Option Exc) (inAct : Bool) (body handler : B
       | _ => denB env cur inAct body d s := by
   simp only [denS]
 
-theorem denB_cons (env : Env) (cur : Option Exc) (inAct : Bool) (st : Stmt) (rest : Block) (d : DS) (s : Fields) :
+theorem denB_cons (env : Env) (cur : Option Exc) (inAct : Bool) (st : Stmt) (rest : Block) (d : DS) (s : Fields)
+    (hns : ∀ x task sp, st ≠ .startAs x task sp) :
     denB env cur inAct (.cons st rest) d s =
       match (denS env cur inAct st d s).out with
       | .ok =>
@@ -780,7 +855,65 @@ theorem denB_cons (env : Env) (cur : Option Exc) (inAct : Bool) (st : Stmt) (res
           wf := (denS env cur inAct st d s).wf &&
             (denB env cur inAct rest (denS env cur inAct st d s).ds (denS env cur inAct st d s).s).wf }
       | _ => denS env cur inAct st d s := by
+  cases st <;> first | exact absurd rfl (hns _ _ _) | simp only [denB]
+
+theorem Stmt.start_or (st : Stmt) :
+    (∃ x task sp, st = .startAs x task sp) ∨ (∀ x task sp, st ≠ .startAs x task sp) := by
+  cases st <;> first | exact Or.inl ⟨_, _, _, rfl⟩ | exact Or.inr (fun _ _ _ h => by cases h)
+
+theorem denB_start (env : Env) (cur : Option Exc) (inAct : Bool) (x : Nat) (task : Bool) (sp : Spec) (rest : Block) (d : DS) (s : Fields) :
+    denB env cur inAct (.cons (.startAs x task sp) rest) d s =
+      { denX env cur inAct x (task || !inAct) sp d s rest .nil []
+          { tick := d.tick + 1, nu := if (task || !inAct) = true then d.nu + 1 else d.nu, ex := d.ex } with
+        wf := presentOpt (sp.sers.map (·.1)) sp.fields &&
+          (denX env cur inAct x (task || !inAct) sp d s rest .nil []
+            { tick := d.tick + 1, nu := if (task || !inAct) = true then d.nu + 1 else d.nu, ex := d.ex }).wf } := by
   simp only [denB]
+
+/-- result of `denX` on anything that is not the explicit spelling -/
+def badR (d0 : DS) (s : Fields) : R := { f := .nil, out := .stuck, s := s, ds := d0, wf := false }
+
+/-- a context segment: the body must end normally -/
+def segR (d0 : DS) (s : Fields) (rb r : R) : R :=
+  match rb.out with
+  | .ok => { r with wf := rb.wf && r.wf }
+  | _ => badR d0 s
+
+theorem denX_ctx (env : Env) (cur : Option Exc) (inAct : Bool) (x : Nat) (sepr : Bool) (sp : Spec) (d0 : DS) (s : Fields)
+    (body rest : Block) (kids : F) (sx : Fields) (d : DS) :
+    denX env cur inAct x sepr sp d0 s (.cons (.inContext x body) rest) kids sx d =
+      segR d0 s (denB env cur true body d sx)
+        (denX env cur inAct x sepr sp d0 s rest (kids.append (denB env cur true body d sx).f) (denB env cur true body d sx).s
+          (denB env cur true body d sx).ds) := by
+  simp only [denX, if_true, segR, badR]
+
+theorem denX_run (env : Env) (cur : Option Exc) (inAct : Bool) (x : Nat) (sepr : Bool) (sp : Spec) (d0 : DS) (s : Fields)
+    (body rest : Block) (kids : F) (sx : Fields) (d : DS) :
+    denX env cur inAct x sepr sp d0 s (.cons (.runIn x body) rest) kids sx d =
+      segR d0 s (denB env cur true body d sx)
+        (denX env cur inAct x sepr sp d0 s rest (kids.append (denB env cur true body d sx).f) (denB env cur true body d sx).s
+          (denB env cur true body d sx).ds) := by
+  simp only [denX, if_true, segR, badR]
+
+theorem denX_finish (env : Env) (cur : Option Exc) (inAct : Bool) (x : Nat) (sepr : Bool) (sp : Spec) (d0 : DS) (s : Fields)
+    (exc : Option Nat) (rest : Block) (kids : F) (sx : Fields) (d : DS) :
+    denX env cur inAct x sepr sp d0 s (.cons (.finish x exc) rest) kids sx d =
+      { f := (closeR env sepr sp d0 s kids sx (finRes exc) d).f.append
+          (denB env cur inAct rest (closeR env sepr sp d0 s kids sx (finRes exc) d).ds (closeR env sepr sp d0 s kids sx (finRes exc) d).s).f,
+        out := (denB env cur inAct rest (closeR env sepr sp d0 s kids sx (finRes exc) d).ds (closeR env sepr sp d0 s kids sx (finRes exc) d).s).out,
+        s := (denB env cur inAct rest (closeR env sepr sp d0 s kids sx (finRes exc) d).ds (closeR env sepr sp d0 s kids sx (finRes exc) d).s).s,
+        ds := (denB env cur inAct rest (closeR env sepr sp d0 s kids sx (finRes exc) d).ds (closeR env sepr sp d0 s kids sx (finRes exc) d).s).ds,
+        wf := (closeR env sepr sp d0 s kids sx (finRes exc) d).wf &&
+          (denB env cur inAct rest (closeR env sepr sp d0 s kids sx (finRes exc) d).ds (closeR env sepr sp d0 s kids sx (finRes exc) d).s).wf } := by
+  simp only [denX, if_true]
+
+theorem Block.structured_cons (inH inAct : Bool) (st : Stmt) (rest : Block) (hns : ∀ x task sp, st ≠ .startAs x task sp) :
+    (Block.cons st rest).structured inH inAct = (st.structured inH inAct && rest.structured inH inAct) := by
+  cases st <;> first | exact absurd rfl (hns _ _ _) | simp only [Block.structured]
+
+theorem Block.structured_start (inH inAct : Bool) (x : Nat) (task : Bool) (sp : Spec) (rest : Block) :
+    (Block.cons (.startAs x task sp) rest).structured inH inAct = rest.structuredX inH inAct x := by
+  simp only [Block.structured]
 
 theorem execS_with_eq (env : Env) (cur : Option Exc) (w : World) (task : Bool) (sp : Spec) (body : Block) :
     execS env cur w (.withAction task sp body) =
@@ -854,6 +987,233 @@ theorem emits_seq {env : Env} {σ : Nat → FV → FV} {ds : List Nat} {w w1 : W
     (run2 w1).2 = (den2 r1.ds r1.s).out ∧ (den2 r1.ds r1.s).out ≠ .stuck := by
   obtain ⟨p2, o2, n2⟩ := h2 w1 c i (n + r1.f.len) r1.s r1.ds (p1.pre hc) hwf2
   exact ⟨Post.trans' p1 p2 b, o2, n2⟩
+
+/-! ## The explicit spelling of an action: `x = start_action(..)`, context segments, `x.finish(..)` -/
+
+/-- identity of the action `x = start_action(sp)` / `start_task(sp)` started at counters `d0` as the
+`(n+1)`-th item of the action with identity `i`, or (`sepr`) as a tree of its own -/
+def AI.sub (i : AI) (n : Nat) (sepr : Bool) (sp : Spec) (d0 : DS) : AI :=
+  if sepr then { uuid := d0.nu, level := [], atype := sp.atype, sers := sp.sers }
+  else { uuid := i.uuid, level := i.level ++ [n + 1], atype := sp.atype, sers := sp.sers }
+
+theorem AI.sub_atype (i : AI) (n : Nat) (sepr : Bool) (sp : Spec) (d0 : DS) : (i.sub n sepr sp d0).atype = sp.atype := by
+  cases sepr <;> rfl
+
+theorem AI.sub_sers (i : AI) (n : Nat) (sepr : Bool) (sp : Spec) (d0 : DS) : (i.sub n sepr sp d0).sers = sp.sers := by
+  cases sepr <;> rfl
+
+/-- the dicts of the node, as an item of the enclosing action or as a tree of its own -/
+theorem dicts_sub (env : Env) (σ : Nat → FV → FV) (i : AI) (n : Nat) (sepr : Bool) (sp : Spec) (d0 : DS) (t : T)
+    (ht : t.rootLevel = []) :
+    F.dicts env σ i.uuid (if sepr = true then F.sep d0.nu t .nil else F.own t .nil) i.level (n + 1) =
+      T.dicts env σ (i.sub n sepr sp d0).uuid t (i.sub n sepr sp d0).level := by
+  cases sepr <;> simp [AI.sub, F.dicts, ht]
+
+/-- in the middle of an explicitly spelled action: relative to the world `w0` before
+`x = start_action(sp)` (counters `d0`; `c` current, `n` positions handed out), the world `w` has staged
+the start message and the dicts of `kids`, the new action `h` — bound to `x` — is open with
+`1 + kids.len` positions handed out and success fields `sx`, `c` is current again -/
+structure PreX (env : Env) (σ : Nat → FV → FV) (ds : List Nat) (w0 w : World) (c : Nat) (i : AI) (n : Nat) (s : Fields)
+    (x h : Nat) (sepr : Bool) (sp : Spec) (d0 : DS) (kids : F) (sx : Fields) (d : DS) : Prop where
+  wok : WOK w ds
+  stage : w.stage = w0.stage ++ startDict σ (i.sub n sepr sp d0).uuid ((i.sub n sepr sp d0).level ++ [1]) d0.tick sp ::
+    F.dicts env σ (i.sub n sepr sp d0).uuid kids (i.sub n sepr sp d0).level 2
+  outer : w.acts[c]? = some (i.act (if sepr = true then n else n + 1) s)
+  inner : w.acts[h]? = some ((i.sub n sepr sp d0).act (1 + kids.len) sx)
+  new : w0.acts.length ≤ h
+  old : c < w0.acts.length
+  frame : ∀ g, g < w0.acts.length → g ≠ c → w.acts[g]? = w0.acts[g]?
+  ctx : w.ctx = some c
+  ctx0 : w0.ctx = some c
+  var : lookupNat w.vars x = some h
+  tick : w.tick = d.tick
+  nu : w.nextUuid = d.nu
+  ex : w.extCalls = d.ex
+
+theorem outcomeExc_finRes (exc : Option Nat) : outcomeExc (finRes exc) = exc.map Exc.user := by
+  cases exc <;> rfl
+
+/-- `x.finish(exc)`: the node is complete -/
+theorem postX_finish {env : Env} {σ : Nat → FV → FV} {ds : List Nat} (H : EnvOK env σ ds) {w0 w : World} {c : Nat} {i : AI}
+    {n : Nat} {s : Fields} {x h : Nat} {sepr : Bool} {sp : Spec} {d0 : DS} {kids : F} {sx : Fields} {d : DS}
+    (px : PreX env σ ds w0 w c i n s x h sepr sp d0 kids sx d) (exc : Option Nat)
+    (hp : (closeR env sepr sp d0 s kids sx (finRes exc) d).wf = true) :
+    Post env σ ds w0 (w.finishRec env h (exc.map Exc.user)) c i n (closeR env sepr sp d0 s kids sx (finRes exc) d) := by
+  have hlt := lt_of_get px.inner
+  have hne : h ≠ c := by have := px.new; have := px.old; omega
+  have hres : finRes exc ≠ .stuck := by cases exc <;> simp [finRes]
+  have e := eff_finish H w px.wok h _ px.inner rfl (finRes exc) hres (by
+    intro ho
+    simp only [closeR, ho] at hp
+    simpa [AI.act, AI.sub_sers] using hp)
+  rw [outcomeExc_finRes] at e
+  obtain ⟨wF, hwF⟩ : ∃ wF : World, wF = w.finishRec env h (exc.map Exc.user) := ⟨_, rfl⟩
+  rw [← hwF] at e ⊢
+  have hst : wF.stage = w.stage ++ _ := e.stage
+  have hct : wF.ctx = w.ctx := e.ctx
+  have htk : wF.tick = w.tick + 1 := e.tick
+  have hnu : wF.nextUuid = w.nextUuid + 0 := e.nu
+  have hds : wF.dests = w.dests := e.dests
+  have hgl : wF.globals = w.globals := e.globals
+  refine ⟨?_, ?_, ?_, ?_, hct.trans (px.ctx.trans px.ctx0.symm), ?_, ?_, ?_, ⟨by rw [hds]; exact px.wok.dests, by rw [hgl]; exact px.wok.globals⟩⟩
+  · rw [hst, px.stage]
+    simp only [closeR]
+    rw [dicts_sub env σ i n sepr sp d0 _ rfl]
+    have e1 : 1 + kids.len + 1 = kids.len + 2 := by omega
+    simp only [T.dicts, AI.act, AI.sub_atype, AI.sub_sers, e1, px.tick, px.ex, List.append_assoc, List.cons_append]
+  · rw [e.acts, List.getElem?_set_ne hne, px.outer]
+    cases sepr <;> simp [closeR, F.len]
+  · intro g hg hgc
+    rw [e.acts, List.getElem?_set_ne (by have := px.new; omega)]
+    exact px.frame g hg hgc
+  · rw [e.acts, List.length_set]
+    have := px.new; omega
+  · rw [htk, px.tick]; rfl
+  · rw [hnu, px.nu]; rfl
+  · rw [e.ext]; simp only [closeR, px.ex]
+
+/-- a context segment (`with x.context(): body` / `x.run(lambda: body)`) whose body ends normally -/
+theorem preX_segment {env : Env} {σ : Nat → FV → FV} {ds : List Nat} {run : World → World × Outcome}
+    {den : DS → Fields → R} (hb : Emits env σ ds run den) {w0 w : World} {c : Nat} {i : AI}
+    {n : Nat} {s : Fields} {x h : Nat} {sepr : Bool} {sp : Spec} {d0 : DS} {kids : F} {sx : Fields} {d : DS}
+    (px : PreX env σ ds w0 w c i n s x h sepr sp d0 kids sx d) (hwf : (den d sx).wf = true) (hok : (den d sx).out = .ok)
+    (hv : ∀ w', lookupNat (run w').1.vars x = lookupNat w'.vars x) :
+    (scopedBlock w h run).2 = .ok ∧
+    PreX env σ ds w0 (scopedBlock w h run).1 c i n s x h sepr sp d0 (kids.append (den d sx).f) (den d sx).s (den d sx).ds := by
+  have hne : h ≠ c := by have := px.new; have := px.old; omega
+  have pre : Pre ds ({ w with ctx := some h } : World) h (i.sub n sepr sp d0) (1 + kids.len) sx d :=
+    ⟨⟨px.wok.dests, px.wok.globals⟩, px.inner, rfl, px.tick, px.nu, px.ex⟩
+  obtain ⟨post, hout, _⟩ := hb _ _ _ _ _ _ pre hwf
+  have hv' := hv ({ w with ctx := some h } : World)
+  cases hrun : run ({ w with ctx := some h } : World) with
+  | mk Wb ob =>
+  rw [hrun] at post hout hv'
+  simp only at post hout hv'
+  have hclt : c < w.acts.length := lt_of_get px.outer
+  refine ⟨by simp only [scopedBlock, hrun, hout, hok], ?_⟩
+  simp only [scopedBlock, hrun]
+  refine ⟨⟨post.wok.dests, post.wok.globals⟩, ?_, ?_, ?_, px.new, px.old, ?_, px.ctx, px.ctx0, hv'.trans px.var, post.tick, post.nu, post.ex⟩
+  · have e : 1 + kids.len + 1 = 2 + kids.len := by omega
+    show Wb.stage = _
+    rw [post.stage]
+    show w.stage ++ _ = _
+    rw [px.stage, F.dicts_append, e]
+    simp only [List.append_assoc, List.cons_append]
+  · show Wb.acts[c]? = _
+    rw [post.frame c hclt (Ne.symm hne)]
+    exact px.outer
+  · show Wb.acts[h]? = _
+    rw [post.good, F.len_append, Nat.add_assoc]
+  · intro g hg hgc
+    show Wb.acts[g]? = _
+    rw [post.frame g (by have := px.new; have := lt_of_get px.inner; show g < w.acts.length; omega) (by have := px.new; omega)]
+    exact px.frame g hg hgc
+
+/-- after `x = start_action(sp)` / `start_task(sp)` inside action `c` -/
+theorem preX_start {env : Env} {σ : Nat → FV → FV} {ds : List Nat} (H : EnvOK env σ ds) (cur : Option Exc) {w : World} {c : Nat}
+    {i : AI} {n : Nat} {s : Fields} {d : DS} (pre : Pre ds w c i n s d) (x : Nat) (task : Bool) (sp : Spec)
+    (hp : presentOpt (sp.sers.map (·.1)) sp.fields = true) :
+    (execS env cur w (.startAs x task sp)).2 = .ok ∧
+    PreX env σ ds w (execS env cur w (.startAs x task sp)).1 c i n s x w.acts.length task sp d .nil []
+      { tick := d.tick + 1, nu := if task = true then d.nu + 1 else d.nu, ex := d.ex } := by
+  have hlt := lt_of_get pre.good
+  refine ⟨by simp only [execS], ?_⟩
+  simp only [execS]
+  cases task with
+  | false =>
+    obtain ⟨hh, e⟩ := eff_start_child H w pre.wok c (i.act n s) pre.ctx pre.good sp hp
+    cases hst : w.startAction env false sp with
+    | mk W1 h =>
+    rw [hst] at hh e
+    simp only at hh e
+    subst hh
+    refine ⟨⟨fun d hd => (pre.wok.ofEff e).dests d hd, (pre.wok.ofEff e).globals⟩, ?_, ?_, ?_, Nat.le_refl _, hlt, ?_,
+      e.ctx.trans pre.ctx, pre.ctx, lookupNat_setNat_self _ _ _, ?_, ?_, ?_⟩
+    · show W1.stage = _
+      rw [e.stage, pre.tick]
+      simp [AI.sub, F.dicts, AI.act]
+    · show W1.acts[c]? = _
+      rw [e.acts, List.getElem?_append_left (by rw [List.length_set]; exact hlt), List.getElem?_set_self hlt]
+      simp [AI.act]
+    · show W1.acts[w.acts.length]? = _
+      rw [e.acts]
+      have : w.acts.length = (w.acts.set c { i.act n s with last := (i.act n s).last + 1 }).length := by simp
+      rw [this, List.getElem?_concat_length]
+      simp [AI.sub, AI.act, F.len]
+    · intro g hg hgc
+      show W1.acts[g]? = _
+      rw [e.acts, List.getElem?_append_left (by rw [List.length_set]; exact hg), List.getElem?_set_ne (Ne.symm hgc)]
+    · show W1.tick = _
+      rw [e.tick, pre.tick]
+    · show W1.nextUuid = _
+      rw [e.nu, pre.nu]; rfl
+    · show W1.extCalls = _
+      rw [e.ext, pre.ex]
+  | true =>
+    obtain ⟨hh, e⟩ := eff_start_fresh H w pre.wok true (Or.inl rfl) sp hp
+    cases hst : w.startAction env true sp with
+    | mk W1 h =>
+    rw [hst] at hh e
+    simp only at hh e
+    subst hh
+    refine ⟨⟨fun d hd => (pre.wok.ofEff e).dests d hd, (pre.wok.ofEff e).globals⟩, ?_, ?_, ?_, Nat.le_refl _, hlt, ?_,
+      e.ctx.trans pre.ctx, pre.ctx, lookupNat_setNat_self _ _ _, ?_, ?_, ?_⟩
+    · show W1.stage = _
+      rw [e.stage, pre.tick, pre.nu]
+      simp [AI.sub, F.dicts]
+    · show W1.acts[c]? = _
+      rw [e.acts, List.getElem?_append_left hlt]
+      simpa using pre.good
+    · show W1.acts[w.acts.length]? = _
+      rw [e.acts, List.getElem?_concat_length, pre.nu]
+      simp [AI.sub, AI.act, F.len]
+    · intro g hg _
+      show W1.acts[g]? = _
+      rw [e.acts, List.getElem?_append_left hg]
+    · show W1.tick = _
+      rw [e.tick, pre.tick]
+    · show W1.nextUuid = _
+      rw [e.nu, pre.nu]; rfl
+    · show W1.extCalls = _
+      rw [e.ext, pre.ex]
+
+/-- what the induction establishes for the rest of a block after `x = start_action(sp)` -/
+def EmitsX (env : Env) (σ : Nat → FV → FV) (ds : List Nat) (cur : Option Exc) (x : Nat) (b : Block) : Prop :=
+  ∀ (w0 w : World) (c : Nat) (i : AI) (n : Nat) (s : Fields) (h : Nat) (sepr : Bool) (sp : Spec) (d0 : DS) (kids : F) (sx : Fields)
+    (d : DS), PreX env σ ds w0 w c i n s x h sepr sp d0 kids sx d →
+    (denX env cur true x sepr sp d0 s b kids sx d).wf = true →
+    Post env σ ds w0 (execB env cur w b).1 c i n (denX env cur true x sepr sp d0 s b kids sx d) ∧
+      (execB env cur w b).2 = (denX env cur true x sepr sp d0 s b kids sx d).out ∧
+      (denX env cur true x sepr sp d0 s b kids sx d).out ≠ .stuck
+
+/-- one context segment, then the rest -/
+theorem emitsX_segment {env : Env} {σ : Nat → FV → FV} {ds : List Nat} (cur : Option Exc) (x : Nat) (body rest : Block)
+    (hb : Emits env σ ds (fun w => execB env cur w body) (denB env cur true body)) (hnb : body.binds x = false)
+    (hr : EmitsX env σ ds cur x rest)
+    (st : Stmt) (hst : ∀ w h, lookupNat w.vars x = some h → execS env cur w st = scopedBlock w h (fun w' => execB env cur w' body))
+    (hden : ∀ sepr sp d0 s kids sx d, denX env cur true x sepr sp d0 s (.cons st rest) kids sx d =
+      segR d0 s (denB env cur true body d sx)
+        (denX env cur true x sepr sp d0 s rest (kids.append (denB env cur true body d sx).f) (denB env cur true body d sx).s
+          (denB env cur true body d sx).ds)) :
+    EmitsX env σ ds cur x (.cons st rest) := by
+  intro w0 w c i n s h sepr sp d0 kids sx d px hwf
+  rw [hden] at hwf ⊢
+  simp only [segR] at hwf ⊢
+  cases ho : (denB env cur true body d sx).out with
+  | stuck => simp [ho, badR] at hwf
+  | raised e => simp [ho, badR] at hwf
+  | ok =>
+    simp only [ho, Bool.and_eq_true] at hwf ⊢
+    obtain ⟨ok1, px1⟩ := preX_segment hb px hwf.1 ho (fun w' => execB_vars env cur x body hnb w')
+    simp only [execB, hst w h px.var]
+    cases hsc : scopedBlock w h (fun w' => execB env cur w' body) with
+    | mk w1 o1 =>
+    rw [hsc] at ok1 px1
+    simp only at ok1 px1
+    subst ok1
+    simp only
+    obtain ⟨p, o, nn⟩ := hr _ _ _ _ _ _ _ _ _ _ _ _ _ px1 hwf.2
+    exact ⟨⟨p.stage, p.good, p.frame, p.grow, p.ctx, p.tick, p.nu, p.ex, p.wok⟩, o, nn⟩
 
 mutual
 /-- **Emission lemma**, statements. -/
@@ -962,30 +1322,90 @@ theorem execB_emits {env : Env} {σ : Nat → FV → FV} {ds : List Nat} (H : En
     exact ⟨by simpa only [execB] using Post.same pre rfl rfl rfl rfl rfl rfl rfl rfl _ _, by simp [execB], by simp⟩
   | cons st rest =>
     intro w c i n s d pre hwf
-    simp only [Block.structured, Bool.and_eq_true] at hs
-    obtain ⟨p1, o1, n1⟩ := execS_emits H cur inH hcur st hs.1 w c i n s d pre (by
-      rw [denB_cons] at hwf
-      cases ho : (denS env cur true st d s).out <;> simp only [ho, Bool.and_eq_true] at hwf
-      · exact hwf.1
-      · exact hwf
-      · exact hwf)
-    rw [denB_cons] at hwf ⊢
-    simp only [execB]
-    cases hb : execS env cur w st with
-    | mk w1 ob =>
-    dsimp only at p1 o1
-    rw [hb] at p1 o1
-    dsimp only at p1 o1
-    cases ho : (denS env cur true st d s).out with
-    | ok =>
-      rw [ho] at o1; subst o1
-      simp only [ho, Bool.and_eq_true] at hwf ⊢
-      exact emits_seq pre.ctx p1 (execB_emits H cur inH hcur rest hs.2) _ hwf.2
-    | stuck => exact absurd ho n1
-    | raised e =>
-      rw [ho] at o1; subst o1
-      simp only [ho]
-      refine ⟨p1, ?_, ?_⟩ <;> simp
+    rcases Stmt.start_or st with ⟨x, task, sp, rfl⟩ | hns
+    · -- the explicit spelling: `x = start_action(sp)`, then `execX_emits` on the rest
+      rw [Block.structured_start] at hs
+      rw [denB_start] at hwf ⊢
+      simp only [Bool.not_true, Bool.or_false, Bool.and_eq_true] at hwf ⊢
+      obtain ⟨ok1, px⟩ := preX_start H cur pre x task sp hwf.1
+      simp only [execB]
+      cases hst : execS env cur w (.startAs x task sp) with
+      | mk w1 o1 =>
+      rw [hst] at ok1 px
+      simp only at ok1 px
+      subst ok1
+      simp only
+      obtain ⟨p, o, nn⟩ := execX_emits H cur inH hcur x rest hs w w1 c i n s _ _ _ _ _ _ _ px hwf.2
+      exact ⟨⟨p.stage, p.good, p.frame, p.grow, p.ctx, p.tick, p.nu, p.ex, p.wok⟩, o, nn⟩
+    · rw [Block.structured_cons _ _ _ _ hns] at hs
+      simp only [Bool.and_eq_true] at hs
+      obtain ⟨p1, o1, n1⟩ := execS_emits H cur inH hcur st hs.1 w c i n s d pre (by
+        rw [denB_cons _ _ _ _ _ _ _ hns] at hwf
+        cases ho : (denS env cur true st d s).out <;> simp only [ho, Bool.and_eq_true] at hwf
+        · exact hwf.1
+        · exact hwf
+        · exact hwf)
+      rw [denB_cons _ _ _ _ _ _ _ hns] at hwf ⊢
+      simp only [execB]
+      cases hb : execS env cur w st with
+      | mk w1 ob =>
+      dsimp only at p1 o1
+      rw [hb] at p1 o1
+      dsimp only at p1 o1
+      cases ho : (denS env cur true st d s).out with
+      | ok =>
+        rw [ho] at o1; subst o1
+        simp only [ho, Bool.and_eq_true] at hwf ⊢
+        exact emits_seq pre.ctx p1 (execB_emits H cur inH hcur rest hs.2) _ hwf.2
+      | stuck => exact absurd ho n1
+      | raised e =>
+        rw [ho] at o1; subst o1
+        simp only [ho]
+        refine ⟨p1, ?_, ?_⟩ <;> simp
+/-- **Emission lemma**, the explicit spelling: the rest of a block after `x = start_action(sp)`, run
+while `x` is open and the enclosing action `c` is current, completes the node of `x` — same dicts as
+the `with` block's — and goes on as a structured block. -/
+theorem execX_emits {env : Env} {σ : Nat → FV → FV} {ds : List Nat} (H : EnvOK env σ ds) (cur : Option Exc) (inH : Bool)
+    (hcur : inH = true → cur.isSome = true) (x : Nat) (b : Block) (hs : b.structuredX inH true x = true) :
+    EmitsX env σ ds cur x b := by
+  cases b with
+  | nil => simp [Block.structuredX] at hs
+  | cons st rest =>
+    cases st with
+    | inContext y body =>
+      simp only [Block.structuredX, Bool.and_eq_true, beq_iff_eq, Bool.not_eq_true'] at hs
+      obtain ⟨⟨⟨rfl, hsb⟩, hnb⟩, hsr⟩ := hs
+      exact emitsX_segment cur y body rest (execB_emits H cur inH hcur body hsb) hnb (execX_emits H cur inH hcur y rest hsr) _
+        (fun w h hv => by simp only [execS, hv]) (fun _ _ _ _ _ _ _ => denX_ctx ..)
+    | runIn y body =>
+      simp only [Block.structuredX, Bool.and_eq_true, beq_iff_eq, Bool.not_eq_true'] at hs
+      obtain ⟨⟨⟨rfl, hsb⟩, hnb⟩, hsr⟩ := hs
+      exact emitsX_segment cur y body rest (execB_emits H cur inH hcur body hsb) hnb (execX_emits H cur inH hcur y rest hsr) _
+        (fun w h hv => by simp only [execS, hv]) (fun _ _ _ _ _ _ _ => denX_run ..)
+    | finish y exc =>
+      simp only [Block.structuredX, Bool.and_eq_true, beq_iff_eq] at hs
+      obtain ⟨rfl, hsr⟩ := hs
+      intro w0 w c i n s h sepr sp d0 kids sx d px hwf
+      rw [denX_finish] at hwf ⊢
+      simp only [Bool.and_eq_true] at hwf
+      have p1 := postX_finish H px exc hwf.1
+      simp only [execB, execS, px.var]
+      exact emits_seq px.ctx0 p1 (execB_emits H cur inH hcur rest hsr) _ hwf.2
+    | withAction task sp body => simp [Block.structuredX] at hs
+    | log ms => simp [Block.structuredX] at hs
+    | raise k => simp [Block.structuredX] at hs
+    | tryCatch body handler => simp [Block.structuredX] at hs
+    | writeTraceback => simp [Block.structuredX] at hs
+    | addSuccess z fs => simp [Block.structuredX] at hs
+    | probe k => simp [Block.structuredX] at hs
+    | startAs z task sp => simp [Block.structuredX] at hs
+    | withHandle z body => simp [Block.structuredX] at hs
+    | logTo z ms => simp [Block.structuredX] at hs
+    | serializeAs z z' => simp [Block.structuredX] at hs
+    | continueWith z sp body => simp [Block.structuredX] at hs
+    | addDests l => simp [Block.structuredX] at hs
+    | removeDest z => simp [Block.structuredX] at hs
+    | addGlobals fs => simp [Block.structuredX] at hs
 end
 
 /-! ## Outside any action -/
@@ -1085,6 +1505,160 @@ theorem emitsT_with {env : Env} {σ : Nat → FV → FV} {ds : List Nat} (H : En
   rw [r1, e.stage, pre.tick, pre.nu]
   simp [F.dicts, T.dicts, T.rootLevel, List.append_assoc]
 
+/-! ### the explicit spelling outside any action -/
+
+/-- identity of a tree of its own started at counters `d0` -/
+def AI.top (sp : Spec) (d0 : DS) : AI := { uuid := d0.nu, level := [], atype := sp.atype, sers := sp.sers }
+
+/-- in the middle of an explicitly spelled top-level action (cf. `PreX`; no action is current) -/
+structure PreXT (env : Env) (σ : Nat → FV → FV) (ds : List Nat) (w0 w : World) (x h : Nat) (sp : Spec) (d0 : DS)
+    (kids : F) (sx : Fields) (d : DS) : Prop where
+  wok : WOK w ds
+  stage : w.stage = w0.stage ++ startDict σ d0.nu [1] d0.tick sp :: F.dicts env σ d0.nu kids [] 2
+  inner : w.acts[h]? = some ((AI.top sp d0).act (1 + kids.len) sx)
+  new : w0.acts.length ≤ h
+  frame : ∀ g, g < w0.acts.length → w.acts[g]? = w0.acts[g]?
+  ctx : w.ctx = none
+  ctx0 : w0.ctx = none
+  var : lookupNat w.vars x = some h
+  tick : w.tick = d.tick
+  nu : w.nextUuid = d.nu
+  ex : w.extCalls = d.ex
+
+theorem postXT_finish {env : Env} {σ : Nat → FV → FV} {ds : List Nat} (H : EnvOK env σ ds) {w0 w : World}
+    {s : Fields} {x h : Nat} {sp : Spec} {d0 : DS} {kids : F} {sx : Fields} {d : DS}
+    (px : PreXT env σ ds w0 w x h sp d0 kids sx d) (exc : Option Nat)
+    (hp : (closeR env true sp d0 s kids sx (finRes exc) d).wf = true) :
+    PostT env σ ds w0 (w.finishRec env h (exc.map Exc.user)) (closeR env true sp d0 s kids sx (finRes exc) d) := by
+  have hlt := lt_of_get px.inner
+  have hres : finRes exc ≠ .stuck := by cases exc <;> simp [finRes]
+  have e := eff_finish H w px.wok h _ px.inner rfl (finRes exc) hres (by
+    intro ho
+    simp only [closeR, ho] at hp
+    simpa [AI.act, AI.top] using hp)
+  rw [outcomeExc_finRes] at e
+  obtain ⟨wF, hwF⟩ : ∃ wF : World, wF = w.finishRec env h (exc.map Exc.user) := ⟨_, rfl⟩
+  rw [← hwF] at e ⊢
+  have hst : wF.stage = w.stage ++ _ := e.stage
+  have hct : wF.ctx = w.ctx := e.ctx
+  have htk : wF.tick = w.tick + 1 := e.tick
+  have hnu : wF.nextUuid = w.nextUuid + 0 := e.nu
+  have hds : wF.dests = w.dests := e.dests
+  have hgl : wF.globals = w.globals := e.globals
+  refine ⟨?_, by simp [closeR, F.len], ?_, ?_, hct.trans (px.ctx.trans px.ctx0.symm), ?_, ?_, ?_,
+    ⟨by rw [hds]; exact px.wok.dests, by rw [hgl]; exact px.wok.globals⟩⟩
+  · rw [hst, px.stage]
+    have e1 : 1 + kids.len + 1 = kids.len + 2 := by omega
+    simp only [closeR, if_true, F.dicts, T.rootLevel, T.dicts, AI.act, AI.top, e1, px.tick, px.ex, List.append_assoc,
+      List.cons_append, List.append_nil, List.nil_append]
+  · intro g hg
+    rw [e.acts, List.getElem?_set_ne (by have := px.new; omega)]
+    exact px.frame g hg
+  · rw [e.acts, List.length_set]
+    have := px.new; omega
+  · rw [htk, px.tick]; rfl
+  · rw [hnu, px.nu]; rfl
+  · rw [e.ext]; simp only [closeR, px.ex]
+
+theorem preXT_segment {env : Env} {σ : Nat → FV → FV} {ds : List Nat} {run : World → World × Outcome}
+    {den : DS → Fields → R} (hb : Emits env σ ds run den) {w0 w : World}
+    {x h : Nat} {sp : Spec} {d0 : DS} {kids : F} {sx : Fields} {d : DS}
+    (px : PreXT env σ ds w0 w x h sp d0 kids sx d) (hwf : (den d sx).wf = true) (hok : (den d sx).out = .ok)
+    (hv : ∀ w', lookupNat (run w').1.vars x = lookupNat w'.vars x) :
+    (scopedBlock w h run).2 = .ok ∧
+    PreXT env σ ds w0 (scopedBlock w h run).1 x h sp d0 (kids.append (den d sx).f) (den d sx).s (den d sx).ds := by
+  have pre : Pre ds ({ w with ctx := some h } : World) h (AI.top sp d0) (1 + kids.len) sx d :=
+    ⟨⟨px.wok.dests, px.wok.globals⟩, px.inner, rfl, px.tick, px.nu, px.ex⟩
+  obtain ⟨post, hout, _⟩ := hb _ _ _ _ _ _ pre hwf
+  have hv' := hv ({ w with ctx := some h } : World)
+  cases hrun : run ({ w with ctx := some h } : World) with
+  | mk Wb ob =>
+  rw [hrun] at post hout hv'
+  simp only at post hout hv'
+  refine ⟨by simp only [scopedBlock, hrun, hout, hok], ?_⟩
+  simp only [scopedBlock, hrun]
+  refine ⟨⟨post.wok.dests, post.wok.globals⟩, ?_, ?_, px.new, ?_, px.ctx, px.ctx0, hv'.trans px.var, post.tick, post.nu, post.ex⟩
+  · have e : 1 + kids.len + 1 = 2 + kids.len := by omega
+    show Wb.stage = _
+    rw [post.stage]
+    show w.stage ++ _ = _
+    rw [px.stage, F.dicts_append, e]
+    simp only [List.append_assoc, List.cons_append, AI.top]
+  · show Wb.acts[h]? = _
+    rw [post.good, F.len_append, Nat.add_assoc]
+  · intro g hg
+    show Wb.acts[g]? = _
+    rw [post.frame g (by have := px.new; have := lt_of_get px.inner; show g < w.acts.length; omega) (by have := px.new; omega)]
+    exact px.frame g hg
+
+theorem preXT_start {env : Env} {σ : Nat → FV → FV} {ds : List Nat} (H : EnvOK env σ ds) (cur : Option Exc) {w : World}
+    {d : DS} (pre : PreT ds w d) (x : Nat) (task : Bool) (sp : Spec)
+    (hp : presentOpt (sp.sers.map (·.1)) sp.fields = true) :
+    (execS env cur w (.startAs x task sp)).2 = .ok ∧
+    PreXT env σ ds w (execS env cur w (.startAs x task sp)).1 x w.acts.length sp d .nil []
+      { tick := d.tick + 1, nu := d.nu + 1, ex := d.ex } := by
+  refine ⟨by simp only [execS], ?_⟩
+  simp only [execS]
+  obtain ⟨hh, e⟩ := eff_start_fresh H w pre.wok task (Or.inr pre.ctx) sp hp
+  cases hst : w.startAction env task sp with
+  | mk W1 h =>
+  rw [hst] at hh e
+  simp only at hh e
+  subst hh
+  refine ⟨⟨fun d hd => (pre.wok.ofEff e).dests d hd, (pre.wok.ofEff e).globals⟩, ?_, ?_, Nat.le_refl _, ?_,
+    e.ctx.trans pre.ctx, pre.ctx, lookupNat_setNat_self _ _ _, ?_, ?_, ?_⟩
+  · show W1.stage = _
+    rw [e.stage, pre.tick, pre.nu]
+    simp [F.dicts]
+  · show W1.acts[w.acts.length]? = _
+    rw [e.acts, List.getElem?_concat_length, pre.nu]
+    simp [AI.top, AI.act, F.len]
+  · intro g hg
+    show W1.acts[g]? = _
+    rw [e.acts, List.getElem?_append_left hg]
+  · show W1.tick = _
+    rw [e.tick, pre.tick]
+  · show W1.nextUuid = _
+    rw [e.nu, pre.nu]
+  · show W1.extCalls = _
+    rw [e.ext, pre.ex]
+
+def EmitsXT (env : Env) (σ : Nat → FV → FV) (ds : List Nat) (cur : Option Exc) (x : Nat) (b : Block) : Prop :=
+  ∀ (w0 w : World) (s : Fields) (h : Nat) (sp : Spec) (d0 : DS) (kids : F) (sx : Fields)
+    (d : DS), PreXT env σ ds w0 w x h sp d0 kids sx d →
+    (denX env cur false x true sp d0 s b kids sx d).wf = true →
+    PostT env σ ds w0 (execB env cur w b).1 (denX env cur false x true sp d0 s b kids sx d) ∧
+      (execB env cur w b).2 = (denX env cur false x true sp d0 s b kids sx d).out ∧
+      (denX env cur false x true sp d0 s b kids sx d).out ≠ .stuck
+
+theorem emitsXT_segment {env : Env} {σ : Nat → FV → FV} {ds : List Nat} (cur : Option Exc) (x : Nat) (body rest : Block)
+    (hb : Emits env σ ds (fun w => execB env cur w body) (denB env cur true body)) (hnb : body.binds x = false)
+    (hr : EmitsXT env σ ds cur x rest)
+    (st : Stmt) (hst : ∀ w h, lookupNat w.vars x = some h → execS env cur w st = scopedBlock w h (fun w' => execB env cur w' body))
+    (hden : ∀ sp d0 s kids sx d, denX env cur false x true sp d0 s (.cons st rest) kids sx d =
+      segR d0 s (denB env cur true body d sx)
+        (denX env cur false x true sp d0 s rest (kids.append (denB env cur true body d sx).f) (denB env cur true body d sx).s
+          (denB env cur true body d sx).ds)) :
+    EmitsXT env σ ds cur x (.cons st rest) := by
+  intro w0 w s h sp d0 kids sx d px hwf
+  rw [hden] at hwf ⊢
+  simp only [segR] at hwf ⊢
+  cases ho : (denB env cur true body d sx).out with
+  | stuck => simp [ho, badR] at hwf
+  | raised e => simp [ho, badR] at hwf
+  | ok =>
+    simp only [ho, Bool.and_eq_true] at hwf ⊢
+    obtain ⟨ok1, px1⟩ := preXT_segment hb px hwf.1 ho (fun w' => execB_vars env cur x body hnb w')
+    simp only [execB, hst w h px.var]
+    cases hsc : scopedBlock w h (fun w' => execB env cur w' body) with
+    | mk w1 o1 =>
+    rw [hsc] at ok1 px1
+    simp only at ok1 px1
+    subst ok1
+    simp only
+    obtain ⟨p, o, nn⟩ := hr _ _ _ _ _ _ _ _ _ px1 hwf.2
+    exact ⟨⟨p.stage, p.flat, p.frame, p.grow, p.ctx, p.tick, p.nu, p.ex, p.wok⟩, o, nn⟩
+
 mutual
 theorem execS_top {env : Env} {σ : Nat → FV → FV} {ds : List Nat} (H : EnvOK env σ ds) (cur : Option Exc) (inH : Bool)
     (hcur : inH = true → cur.isSome = true) (st : Stmt) (hs : st.structured inH false = true) :
@@ -1181,30 +1755,88 @@ theorem execB_top {env : Env} {σ : Nat → FV → FV} {ds : List Nat} (H : EnvO
     refine PostT.same pre ?_ ?_ ?_ ?_ ?_ ?_ ?_ ?_ _ _ <;> rfl
   | cons st rest =>
     intro w s d pre hwf
-    simp only [Block.structured, Bool.and_eq_true] at hs
-    obtain ⟨p1, o1, n1⟩ := execS_top H cur inH hcur st hs.1 w s d pre (by
-      rw [denB_cons] at hwf
-      cases ho : (denS env cur false st d s).out <;> simp only [ho, Bool.and_eq_true] at hwf
-      · exact hwf.1
-      · exact hwf
-      · exact hwf)
-    rw [denB_cons] at hwf ⊢
-    simp only [execB]
-    cases hb : execS env cur w st with
-    | mk w1 ob =>
-    dsimp only at p1 o1
-    rw [hb] at p1 o1
-    dsimp only at p1 o1
-    cases ho : (denS env cur false st d s).out with
-    | ok =>
-      rw [ho] at o1; subst o1
-      simp only [ho, Bool.and_eq_true] at hwf ⊢
-      exact emitsT_seq pre.ctx p1 (execB_top H cur inH hcur rest hs.2) _ hwf.2
-    | stuck => exact absurd ho n1
-    | raised e =>
-      rw [ho] at o1; subst o1
-      simp only [ho]
-      refine ⟨p1, ?_, ?_⟩ <;> simp
+    rcases Stmt.start_or st with ⟨x, task, sp, rfl⟩ | hns
+    · rw [Block.structured_start] at hs
+      rw [denB_start] at hwf ⊢
+      simp only [Bool.not_false, Bool.or_true, if_true, Bool.and_eq_true] at hwf ⊢
+      obtain ⟨ok1, px⟩ := preXT_start H cur pre x task sp hwf.1
+      simp only [execB]
+      cases hst : execS env cur w (.startAs x task sp) with
+      | mk w1 o1 =>
+      rw [hst] at ok1 px
+      simp only at ok1 px
+      subst ok1
+      simp only
+      obtain ⟨p, o, nn⟩ := execX_top H cur inH hcur x rest hs w w1 s _ _ _ _ _ _ px hwf.2
+      exact ⟨⟨p.stage, p.flat, p.frame, p.grow, p.ctx, p.tick, p.nu, p.ex, p.wok⟩, o, nn⟩
+    · rw [Block.structured_cons _ _ _ _ hns] at hs
+      simp only [Bool.and_eq_true] at hs
+      obtain ⟨p1, o1, n1⟩ := execS_top H cur inH hcur st hs.1 w s d pre (by
+        rw [denB_cons _ _ _ _ _ _ _ hns] at hwf
+        cases ho : (denS env cur false st d s).out <;> simp only [ho, Bool.and_eq_true] at hwf
+        · exact hwf.1
+        · exact hwf
+        · exact hwf)
+      rw [denB_cons _ _ _ _ _ _ _ hns] at hwf ⊢
+      simp only [execB]
+      cases hb : execS env cur w st with
+      | mk w1 ob =>
+      dsimp only at p1 o1
+      rw [hb] at p1 o1
+      dsimp only at p1 o1
+      cases ho : (denS env cur false st d s).out with
+      | ok =>
+        rw [ho] at o1; subst o1
+        simp only [ho, Bool.and_eq_true] at hwf ⊢
+        exact emitsT_seq pre.ctx p1 (execB_top H cur inH hcur rest hs.2) _ hwf.2
+      | stuck => exact absurd ho n1
+      | raised e =>
+        rw [ho] at o1; subst o1
+        simp only [ho]
+        refine ⟨p1, ?_, ?_⟩ <;> simp
+/-- the explicit spelling at top level: the rest of a block after `x = start_action(sp)`, run while `x`
+is open and no action is current, completes the tree of `x` and goes on as a structured block. -/
+theorem execX_top {env : Env} {σ : Nat → FV → FV} {ds : List Nat} (H : EnvOK env σ ds) (cur : Option Exc) (inH : Bool)
+    (hcur : inH = true → cur.isSome = true) (x : Nat) (b : Block) (hs : b.structuredX inH false x = true) :
+    EmitsXT env σ ds cur x b := by
+  cases b with
+  | nil => simp [Block.structuredX] at hs
+  | cons st rest =>
+    cases st with
+    | inContext y body =>
+      simp only [Block.structuredX, Bool.and_eq_true, beq_iff_eq, Bool.not_eq_true'] at hs
+      obtain ⟨⟨⟨rfl, hsb⟩, hnb⟩, hsr⟩ := hs
+      exact emitsXT_segment cur y body rest (execB_emits H cur inH hcur body hsb) hnb (execX_top H cur inH hcur y rest hsr) _
+        (fun w h hv => by simp only [execS, hv]) (fun _ _ _ _ _ _ => denX_ctx ..)
+    | runIn y body =>
+      simp only [Block.structuredX, Bool.and_eq_true, beq_iff_eq, Bool.not_eq_true'] at hs
+      obtain ⟨⟨⟨rfl, hsb⟩, hnb⟩, hsr⟩ := hs
+      exact emitsXT_segment cur y body rest (execB_emits H cur inH hcur body hsb) hnb (execX_top H cur inH hcur y rest hsr) _
+        (fun w h hv => by simp only [execS, hv]) (fun _ _ _ _ _ _ => denX_run ..)
+    | finish y exc =>
+      simp only [Block.structuredX, Bool.and_eq_true, beq_iff_eq] at hs
+      obtain ⟨rfl, hsr⟩ := hs
+      intro w0 w s h sp d0 kids sx d px hwf
+      rw [denX_finish] at hwf ⊢
+      simp only [Bool.and_eq_true] at hwf
+      have p1 := postXT_finish H px exc hwf.1
+      simp only [execB, execS, px.var]
+      exact emitsT_seq px.ctx0 p1 (execB_top H cur inH hcur rest hsr) _ hwf.2
+    | withAction task sp body => simp [Block.structuredX] at hs
+    | log ms => simp [Block.structuredX] at hs
+    | raise k => simp [Block.structuredX] at hs
+    | tryCatch body handler => simp [Block.structuredX] at hs
+    | writeTraceback => simp [Block.structuredX] at hs
+    | addSuccess z fs => simp [Block.structuredX] at hs
+    | probe k => simp [Block.structuredX] at hs
+    | startAs z task sp => simp [Block.structuredX] at hs
+    | withHandle z body => simp [Block.structuredX] at hs
+    | logTo z ms => simp [Block.structuredX] at hs
+    | serializeAs z z' => simp [Block.structuredX] at hs
+    | continueWith z sp body => simp [Block.structuredX] at hs
+    | addDests l => simp [Block.structuredX] at hs
+    | removeDest z => simp [Block.structuredX] at hs
+    | addGlobals fs => simp [Block.structuredX] at hs
 end
 
 end Sys.Emit
